@@ -109,7 +109,7 @@ class Gift(Core.System):
     def _add(self, a):
         m = self.model
         env = m.environment
-        if m.kind in ('plain', 'crowd', 'late_seed'):
+        if m.kind in ('plain', 'crowd', 'crowd_big', 'late_seed'):
             env.add_agent(a)
         elif m.kind in ('grid', 'swap'):
             env.add_agent(a, m.random.randrange(env.width), m.random.randrange(env.height))
@@ -131,7 +131,7 @@ class Walk(Core.System):
         env = m.environment
         tr = m.systems['trace'].records
         tr.append(('exec', self.id, m.systems.timestep, m.random.random()))     # draws even in the plain model
-        if m.kind in ('plain', 'crowd', 'late_seed'):
+        if m.kind in ('plain', 'crowd', 'crowd_big', 'late_seed'):
             return
         for a in env.shuffle():
             if m.kind in ('grid', 'swap'):
@@ -178,6 +178,8 @@ class SModel(Core.Model):
         self.kind = kind
         if kind == 'crowd':
             n = CROWD
+        if kind == 'crowd_big':
+            n = 1100          # above 1024
         self.born = 0
         self.horizon = horizon
         if kind == 'grid':
@@ -486,8 +488,8 @@ def run(ctx):
     a, b = solo('plain', ctx.seed * 1000 + 1, 3), solo('plain', ctx.seed * 1000 + 2, 3)
     if a == b:
         raise hbfs.HarnessError('scripted models are not seed-sensitive')
-    for kind in KINDS + ['crowd']:
-        case = {'leg': 'repeat', 'kind': kind, 'seed': ctx.seed * 1000 + 1, 'steps': 3 if kind != 'crowd' else 1}
+    for kind in KINDS + ['crowd', 'crowd_big']:
+        case = {'leg': 'repeat', 'kind': kind, 'seed': ctx.seed * 1000 + 1, 'steps': 3 if not kind.startswith('crowd') else 1}
         ctx.traces += 2
         try:
             hbfs._guard(repeat_case, case)
